@@ -179,6 +179,9 @@ class World(object):
         attrib = {}
         if op.get('mode') == 16:
             attrib = {'opmode': s.A.u16}
+        if op.get('xattr') is not None and not attrib:
+            attrib = {'opmode': s.A.u32, 'admode': s.A.u32} if op['xattr'] == 32 else {}
+            return s.A.x86mnemo.dis(bytes.fromhex(op['hex']), attrib)
         return s.A.x86mnemo.dis(bytes.fromhex(op['hex']), attrib) if attrib else s.A.x86mnemo.dis(bytes.fromhex(op['hex']))
 
     # ---- one API call
@@ -234,6 +237,10 @@ class World(object):
 
     def op_asm(self, idx, op, resolved, mut):
         s = sut()
+        if op.get('symoff'):
+            so = []
+            out = s.A.x86mnemo.asm(op['line'], so)
+            return [canon.ser_val(out), canon.ser_val(so)]
         out = s.A.x86mnemo.asm(op['line'])
         return canon.ser_val(out)
 
@@ -252,7 +259,12 @@ class World(object):
         eip = self.expr_arg(['I', 'uint32', op.get('eip', 0x1000)], op.get('shared_eip'), resolved)
         eip_before = canon.ser_expr(eip)
         try:
-            if op.get('segm'):
+            if op.get('noargs'):
+                if op.get('segm'):
+                    affs = s.H.get_instr_expr(i, eip, segm_to_do=set(op['segm']))
+                else:
+                    affs = s.H.get_instr_expr(i, eip)
+            elif op.get('segm'):
                 affs = s.H.get_instr_expr(i, eip, [], set(op['segm']))
             else:
                 affs = s.H.get_instr_expr(i, eip, [])
@@ -382,7 +394,7 @@ class World(object):
         before_e = canon.ser_expr(e)
         before_m = canon.ser_machine(m)
         try:
-            r = m.eval_expr(e, {})
+            r = m.eval_expr_no_cache(e) if op.get('nocache') else m.eval_expr(e, {})
         finally:
             if canon.ser_expr(e) != before_e:
                 mut.append('expr')
@@ -462,6 +474,16 @@ class World(object):
                 sr = self.expr_arg(src, op.get('shared'), resolved)
                 affs.append(s.E.ExprAff(d, sr))
         before = [canon.ser_expr(a) for a in affs]
+        if op.get('modonly'):
+            before_m = canon.ser_machine(m)
+            try:
+                po = m.get_instr_mod(affs)
+            finally:
+                if [canon.ser_expr(a) for a in affs] != before:
+                    mut.append('affs')
+                if canon.ser_machine(m) != before_m:
+                    mut.append('machine')
+            return {'mod': sorted(([canon.ser_expr(k), canon.ser_expr(v)] for k, v in po.items()), key=json.dumps)}
         try:
             ret = m.eval_instr(affs)
         finally:
@@ -939,8 +961,30 @@ def gen_history(rng):
     for op in ops:
         if 'm' in op and op['op'] in ('new_machine', 'eval', 'get_reg', 'dump', 'step', 'affs', 'clone', 'mutate_bind'):
             op['root'] = roots.get(op['m'], op['m'])
+    call_styles(ops)
     cfg = {'clients': nclients, 'alias_p': alias_p, 'scenario': scenario, 'bad_p': bad_p, 'ref_p': ref_p}
     return cfg, ops
+
+def call_styles(ops):
+    """Second pass over a generated history: the same entry points in their other calling conventions (optional
+    arguments left out or given explicitly, the read-only siblings of state-changing calls).  Drawn from a generator
+    keyed by the history itself, so that the main stream of choices is what it was before this pass existed."""
+    rng2 = random.Random(int(hashlib.sha256(json.dumps(ops, sort_keys=True).encode()).hexdigest()[:16], 16))
+    p = rng2.choice([0.0, 0.3, 0.6])
+    for op in ops:
+        k = op['op']
+        if rng2.random() >= p:
+            continue
+        if k == 'lift':
+            op['noargs'] = 1            # get_instr_expr(l, eip): the operand list is the function's default
+        elif k == 'eval' and rng2.random() < 0.5:
+            op['nocache'] = 1           # eval_expr_no_cache(e): the evaluation cache is the function's default
+        elif k == 'affs' and rng2.random() < 0.4:
+            op['modonly'] = 1           # get_instr_mod(affs): evaluates against the state without committing
+        elif k == 'dis' and 'mode' not in op:
+            op['xattr'] = rng2.choice([0, 32])      # explicit (empty / fully spelt) attribute dictionary
+        elif k == 'asm':
+            op['symoff'] = 1            # explicit symbol-offset output list
 
 # ------------------------------------------------------------- repair of refs
 
